@@ -2531,9 +2531,6 @@ class Mailbox:
         Returns the list of `FETCH *` mssages generated by this store.
         """
 
-        if r"\Recent" in flags:
-            raise No(r"You can not add or remove the '\Recent' flag")
-
         if action not in StoreAction:
             raise Bad(f"'{action}' is an invalid STORE action")
 
@@ -2545,6 +2542,13 @@ class Mailbox:
         # Convert the flags to MH sequence names..
         #
         flags = [flag_to_seq(x) for x in flags]
+
+        # NOTE: Test the sequence names, not the flags as the client spelled
+        #       them: keywords map to themselves so both `\Recent` and the
+        #       keyword `Recent` end up in the `Recent` sequence.
+        #
+        if "Recent" in flags:
+            raise No(r"You can not add or remove the '\Recent' flag")
         store_start = time.monotonic()
 
         notifications: list[str] = []
